@@ -2,6 +2,7 @@
 //! the replayer (steps TLC-generated behaviours through the real library).
 mod alloc;
 mod fam_codec;
+mod fam_dispatch;
 mod fam_dist;
 mod fam_gen;
 mod fam_len;
@@ -60,6 +61,8 @@ fn main() {
         "c03" => fam_gen::run_c03(&mut out, &mut rng, args.thorough, only),
         "c10" => fam_gen::run_c10(&mut out, &mut rng, args.thorough, only),
         "c11" => fam_gen::run_c11(&mut out, &mut rng, args.thorough, only),
+        "dispatch" => fam_dispatch::run(&mut out, args.seed),
+        "agg" => fam_gen::run_agg(&mut out, &mut rng, args.thorough, only),
         "c02" => fam_dist::run_c02(&mut out, &mut rng, args.thorough, only),
         "c08" => fam_dist::run_c08(&mut out, &mut rng, args.thorough, only),
         "c04" => fam_codec::run_c04(&mut out, &mut rng, args.thorough, only),
